@@ -227,6 +227,24 @@ func memberLoss(o *onto.Onto, in, out map[string]interface{}, path string, top b
 			if count(out, b) < nin {
 				lost = append(lost, path+k)
 			}
+			// the entries of a language map are members too: each language must reappear (under either spelling)
+			if im, ok := v.(map[string]interface{}); ok {
+				for lang := range im {
+					found := false
+					for _, kk := range []string{b, b + "Map"} {
+						for _, e := range append([]interface{}{out[kk]}, listOf(out[kk])...) {
+							if om, ok := e.(map[string]interface{}); ok {
+								if _, ok := om[lang]; ok {
+									found = true
+								}
+							}
+						}
+					}
+					if !found {
+						lost = append(lost, path+k+"."+lang)
+					}
+				}
+			}
 			continue
 		}
 		ov, ok := out[k]
@@ -253,6 +271,11 @@ func memberLoss(o *onto.Onto, in, out map[string]interface{}, path string, top b
 		}
 	}
 	return lost
+}
+
+func listOf(v interface{}) []interface{} {
+	l, _ := v.([]interface{})
+	return l
 }
 
 func hasNullOrNestedArray(v interface{}, inArray bool) bool {
@@ -518,10 +541,30 @@ func C01(tier string) int {
 	nc("nested-context", note("attachment", M{"@context": "https://www.w3.org/ns/activitystreams", "type": "Image", "url": "https://x.example/i.png"}))
 	nc("embedded-without-id", note("attachment", M{"type": "Image", "name": "no id"}))
 	nc("empty-lists", note("to", L{}, "tag", L{}, "attachment", L{}))
+	// language maps holding entries that are not strings (the map must then be kept whole, not thinned out)
+	for vi, bad := range []interface{}{5.0, true, L{}, L{"a"}, M{"x": "y"}, nil} {
+		for _, member := range []string{"contentMap", "content", "nameMap", "summaryMap"} {
+			nc(fmt.Sprintf("language-map-with-non-string-entry-%d", vi), note(member, M{"en": "kept", "fr": bad}))
+			nc(fmt.Sprintf("language-map-with-non-string-entry-%d", vi), note(member, M{"fr": bad}))
+		}
+		nc(fmt.Sprintf("language-map-with-non-string-entry-%d", vi), M{"type": "Person", "id": "https://x.example/p", "preferredUsernameMap": M{"en": "kept", "fr": bad}})
+		nc(fmt.Sprintf("language-map-with-non-string-entry-%d", vi), note("attachment", M{"type": "Image", "id": "https://x.example/i", "nameMap": M{"en": "kept", "fr": bad}}))
+	}
+	// the library's alias form of @context ({vocabulary URI: alias}), per vocabulary
+	for _, v := range o.Vocabs {
+		for _, k := range o.TypeKeys() {
+			t := o.Types[k]
+			if t.Vocab != v.Name || t.Typeless {
+				continue
+			}
+			nc("alias-map-context", M{"@context": L{rawURI(o.Vocabs[0]), M{rawURI(v): "zz"}}, "type": "zz:" + t.Name, "id": "https://x.example/v", "name": "x"})
+			break
+		}
+	}
 	nc("empty-string-members", note("content", "", "summary", ""))
 
 	// ---- run ----
-	res.Rule = fmt.Sprintf("documents derived from the ontology grammar: every (type, property, kind in range closure + IRI) x {scalar, list of 2, mixed list <=4, language map} (canonical), nesting depth 2-3 through object/attachment/tag/inReplyTo for every type, unknown members from a 10-value alphabet under 3 key spellings at top level and nested, every (type, name of a property the type does not have) as a member (top level; every 16th nested), lists of 2-3 same-kind elements of which exactly one (each position) nests a value of another vocabulary, and %d accepted-but-non-canonical shapes; %d documents in total; oracle: (a) canonical: encode(decode(d)) JSON-equal to d with @context compared as a set that must equal the vocabularies the oracle says the document uses; (b) no member lost except nested @context / null for a known property, natural-language members modulo the Map spelling; (c) a second round trip changes nothing unless the document holds such a null or an array directly inside an array; non-trivial = documents the decoder accepted, distinct by (family, type, member names)", 22, len(cases))
+	res.Rule = fmt.Sprintf("documents derived from the ontology grammar: every (type, property, kind in range closure + IRI) x {scalar, list of 2, mixed list <=4, language map} (canonical), nesting depth 2-3 through object/attachment/tag/inReplyTo for every type, unknown members from a 10-value alphabet under 3 key spellings at top level and nested, every (type, name of a property the type does not have) as a member (top level; every 16th nested), lists of 2-3 same-kind elements of which exactly one (each position) nests a value of another vocabulary, and %d accepted-but-non-canonical shapes; %d documents in total; oracle: (a) canonical: encode(decode(d)) JSON-equal to d with @context compared as a set that must equal the vocabularies the oracle says the document uses; (b) no member lost except nested @context / null for a known property, natural-language members modulo the Map spelling; (c) a second round trip changes nothing unless the document holds such a null or an array directly inside an array; non-trivial = documents the decoder accepted, distinct by (family, type, member names)", 22+6*10+len(o.Vocabs), len(cases))
 	var mu sync.Mutex
 	chunk := 4000
 	par((len(cases)+chunk-1)/chunk, func(ci int) {
